@@ -1,5 +1,5 @@
 // VARIANTS: rel
-// C16 - the C and C++ wrappers are transparent.
+// C16 - the C and C++ wrappers are transparent (also when one handle / wrapper object is shared by several threads: C16_tsan).
 #include "kit.h"
 #include "worlds.h"
 #include "world_builder/wrapper_c.h"
@@ -119,13 +119,17 @@ namespace
             for (size_t i = 0; i < r.size(); ++i) for (int k = 0; k < 3; ++k) raw[i][k] = r[i][k];
             const unsigned n = properties_output_size(cw, raw, static_cast<unsigned>(r.size()));
             if (n != native.properties_output_size(r)) { bad("properties_output_size", p, depth, jreq(r)); continue; }
-            std::vector<double> got(n + 2, -777.25);
-            properties_3d(cw, p[0], p[1], p[2], depth, raw, static_cast<unsigned>(r.size()), got.data());
-            const std::vector<double> want = native.properties(p, depth, r);
-            ctx.eval();
-            ctx.count(c_cmp, n);
-            if (want.size() != n || std::memcmp(got.data(), want.data(), n*sizeof(double)) != 0) bad("properties_3d", p, depth, jreq(r));
-            if (got[n] != -777.25 || got[n+1] != -777.25) bad("properties_3d-writes-past-announced-size", p, depth, jreq(r));
+            // every query is made twice in a row (an application evaluates a point once per field): the second answer must again be the native one
+            for (int again = 0; again < 2; ++again)
+              {
+                std::vector<double> got(n + 2, -777.25);
+                properties_3d(cw, p[0], p[1], p[2], depth, raw, static_cast<unsigned>(r.size()), got.data());
+                const std::vector<double> want = native.properties(p, depth, r);
+                ctx.eval();
+                ctx.count(c_cmp, n);
+                if (want.size() != n || std::memcmp(got.data(), want.data(), n*sizeof(double)) != 0) bad(again ? "properties_3d/same-query-repeated" : "properties_3d", p, depth, jreq(r));
+                if (got[n] != -777.25 || got[n+1] != -777.25) bad("properties_3d-writes-past-announced-size", p, depth, jreq(r));
+              }
           }
         double t = 0;
         temperature_3d(cw, p[0], p[1], p[2], depth, &t);
@@ -153,13 +157,16 @@ namespace
             unsigned raw[2][3];
             for (size_t i = 0; i < r.size(); ++i) for (int k = 0; k < 3; ++k) raw[i][k] = r[i][k];
             const unsigned n = native.properties_output_size(r);
-            std::vector<double> got(n + 2, -777.25);
-            properties_2d(cw, x, z, depth, raw, static_cast<unsigned>(r.size()), got.data());
-            const std::vector<double> want = native.properties(p2, depth, r);
-            ctx.eval();
-            ctx.count(c_cmp, n);
-            if (want.size() != n || std::memcmp(got.data(), want.data(), n*sizeof(double)) != 0) bad("properties_2d", p, depth, jreq(r));
-            if (got[n] != -777.25 || got[n+1] != -777.25) bad("properties_2d-writes-past-announced-size", p, depth, jreq(r));
+            for (int again = 0; again < 2; ++again)
+              {
+                std::vector<double> got(n + 2, -777.25);
+                properties_2d(cw, x, z, depth, raw, static_cast<unsigned>(r.size()), got.data());
+                const std::vector<double> want = native.properties(p2, depth, r);
+                ctx.eval();
+                ctx.count(c_cmp, n);
+                if (want.size() != n || std::memcmp(got.data(), want.data(), n*sizeof(double)) != 0) bad(again ? "properties_2d/same-query-repeated" : "properties_2d", p, depth, jreq(r));
+                if (got[n] != -777.25 || got[n+1] != -777.25) bad("properties_2d-writes-past-announced-size", p, depth, jreq(r));
+              }
           }
         double t = 0;
         temperature_2d(cw, x, z, depth, &t);
@@ -195,6 +202,32 @@ namespace
     if (idx % 17 == 3) ctx.sample(desc);
     if (chdir("/verif") != 0) _exit(3);
   }
+  // free-running ThreadSanitizer pass: one C handle and one C++ wrapper object shared by several threads (separate binary)
+  void run_tsan(bool thorough, uint64_t, Ctx &ctx)
+  {
+    static const int c_q = Ctx::counter_id("tsan_free_running_queries");
+    const std::string log = G().rundir + "/c16tsan.log";
+    const std::string cmd = "TSAN_OPTIONS='halt_on_error=0 report_signal_unsafe=0 exitcode=66' /verif/build/tsan/bin/C16_tsan " + G().rundir + " " + (thorough ? "8" : "4") + " 8 " + (thorough ? "1500" : "300");
+    const int rc = system((cmd + " > " + log + " 2>&1").c_str());
+    const std::string out = read_tail(log, 200000);
+    ctx.eval();
+    const size_t qpos = out.find("queries=");
+    if (qpos != std::string::npos) ctx.count(c_q, strtoull(out.c_str() + qpos + 8, nullptr, 10));
+    if (out.find("WARNING: ThreadSanitizer") != std::string::npos)
+      {
+        std::string where = "unknown";
+        const size_t p = out.find("#0 ");
+        if (p != std::string::npos) { const size_t e = out.find('\n', p); where = out.substr(p + 3, std::min<size_t>(e - p - 3, 140)); }
+        const size_t r0 = out.find("WARNING: ThreadSanitizer");
+        ctx.violation("C16/tsan/data-race-when-a-handle-is-shared-between-threads", JObj().str("first_frame", where).str("report", out.substr(r0, 3500)).str("command", cmd).done());
+      }
+    else if (out.find("VALUE-MISMATCH") != std::string::npos)
+      ctx.violation("C16/shared-handle/value-differs-from-the-native-world", JObj().str("output", out.substr(0, 1500)).done());
+    else if (!(WIFEXITED(rc) && WEXITSTATUS(rc) == 0))
+      ctx.violation("C16/tsan/run-failed", JObj().integer("rc", rc).str("output_tail", out.size() > 1500 ? out.substr(out.size()-1500) : out).str("command", cmd).done());
+    ctx.nontrivial();
+    ctx.sample(JObj().str("suite", "tsan").str("command", cmd).done());
+  }
 }
 
 int main(int argc, char **argv)
@@ -204,12 +237,15 @@ int main(int argc, char **argv)
   spec.level = "exploration";
   spec.rule = "full product: 4 worlds (cartesian, spherical, second file, with random grains) x has_output_dir {NULL,&false,&true} x output_dir {NULL,\"\",\"outdir/\"} x seed {0,1,7}; "
               "per tuple every C function and every C++ wrapper method is compared bit-for-bit with a native World built with the same arguments on all lattice points "
-              "and all request lists of length <= 2 over 7 atoms; tuples are distinct by construction and all non-trivial";
+              "and all request lists of length <= 2 over 7 atoms, each query made twice in a row; tuples are distinct by construction and all non-trivial. tsan suite: a free-running ThreadSanitizer pass in which 8 threads share one handle / wrapper object";
   spec.assumptions = {"the random world is queried with identical query streams on the C world and its native twin", "output directory given relative to a private working directory"};
-  spec.counters = {"values_compared", "output_dir_checks"};
-  return driver(argc, argv, spec, [](const std::string &)
+  spec.counters = {"values_compared", "output_dir_checks", "tsan_free_running_queries"};
+  return driver(argc, argv, spec, [](const std::string &tier)
   {
-    std::vector<Suite> s(1);
+    const bool th = tier == "thorough";
+    std::vector<Suite> s(2);
+    s[1].name = "tsan"; s[1].n = 1; s[1].run = [th](uint64_t i, Ctx &c) { run_tsan(th, i, c); }; s[1].watchdog_s = 900;
+    s[1].bound = "ThreadSanitizer build, free running: 8 threads share one C handle and one C++ wrapper object (temperature / composition with different numbers / properties, 2-D and 3-D) on 4 | 8 worlds; no report, all values equal the native single-threaded answers";
     s[0].name = "wrappers"; s[0].n = 4*3*4*3; s[0].run = run;
     s[0].bound = "4 worlds x 3 flag pointers x 3 directory arguments x 3 seeds, full product; 240 3-D + 54 2-D points x 56 request lists";
     return s;
